@@ -3,7 +3,7 @@
   cells (`W1`): what one piece of the loop may touch (`Ext`), the geometry of a wrapped line and its
   tie to `get_height_for_line` (`fold_wrap_geom`), lookups surviving later writes.
 -/
-import Ptk.Model.C11
+import Ptk.Props.C11Scroll
 namespace Ptk.C11
 open Ptk.Py
 
@@ -180,27 +180,6 @@ theorem fold_flat {e : Env} (hW : W1 e.W) (i : Bool) (l s : Nat) (hook : CS → 
       by rw [a6, gv], by rw [a7, grc]⟩
 
 /-! ### the wrapped-height loop -/
-
-theorem heightLoop_ge (pw : Nat → Nat) (w : Nat) (hpw : ∀ k, pw k < w) (fuel tw h : Nat) :
-    h ≤ heightLoop pw w fuel tw h := by
-  induction fuel generalizing tw h with
-  | zero => simp [heightLoop]
-  | succ f ih =>
-    unfold heightLoop
-    split
-    · rw [if_neg (by have := hpw h; omega)]
-      have := ih (tw - w + pw h) (h + 1); omega
-    · exact Nat.le_refl _
-
-theorem heightLoop_le_w (pw : Nat → Nat) (w fuel tw h : Nat) (h1 : tw ≤ w) :
-    heightLoop pw w fuel tw h = h := by
-  cases fuel with
-  | zero => rfl
-  | succ f => unfold heightLoop; rw [if_neg (by omega)]
-
-theorem heightLoop_gt_w (pw : Nat → Nat) (w f tw h : Nat) (hpw : ∀ k, pw k < w) (h1 : w < tw) :
-    heightLoop pw w (f + 1) tw h = heightLoop pw w f (tw - w + pw h) (h + 1) := by
-  rw [heightLoop, if_pos h1, if_neg (by have := hpw h; omega)]
 
 /-- what the continuation-prefix hook does to the variables the loop looks at, when every prefix
     is narrower than the window: `x` moves to the prefix width -/
